@@ -53,8 +53,11 @@ Theorem model_step_C01 cfg s o :
 Proof.
   intros W r. unfold prop_C01_step.
   rewrite (WF_wf_b (fst r)) by (apply step_WF; exact W). cbn [andb].
-  destruct (is_ok (snd r)) eqn:E; [|reflexivity]. fold r. rewrite E. cbn [andb].
-  apply same_same_links, same_refl.
+  destruct (is_ok (snd r)) eqn:E.
+  - fold r. rewrite E. cbn [andb]. apply same_same_links, same_refl.
+  - destruct o; try reflexivity.
+    apply same_same_links, same_sym, step_atomic; [exact W|reflexivity|].
+    intros H. fold r in H. rewrite H in E. discriminate.
 Qed.
 
 Theorem model_step_C02 cfg s o :
